@@ -18,7 +18,9 @@
      enum       enum TopEnum { 3 values }     extend     2 file-level extensions
      service    messages Req, Resp; service Svc { 2 methods }
      customopt  message OptSub { leaf, names, sub }; 4 file-level extensions (fopt, mopt, mopt2, fldopt)
-     srcret     1 more file-level extension (srcopt)                                         *)
+     srcret     1 more file-level extension (srcopt)
+     jsoncollide  Top.foo_bar, Top.fooBar
+     mapfeatures  Top.mf1, Top.mf2 + their two entry messages{key, value} (after the group's message)  *)
 EXTENDS FileFeatures
 
 N(b) == IF b THEN 1 ELSE 0
@@ -40,12 +42,14 @@ TopFields(fs) ==
   2 + N("stdopt" \in fs) + 2 * N("nested" \in fs) + N("map" \in fs) + N("group" \in fs) + 2 * N("oneof" \in fs)
     + N("p3opt" \in fs) + 4 * N("default" \in fs) + N("default" \in fs /\ "nested" \in fs) + N("required" \in fs)
     + N("features" \in fs) + 2 * N("import" \in fs) + N("public" \in fs)
+    + 2 * N("jsoncollide" \in fs) + 2 * N("mapfeatures" \in fs)
 
 TopShape(fs) ==
   Node(<< <<2, Leaves(TopFields(fs))>>,
           <<3, (IF "nested" \in fs THEN <<MsgWithFields(1)>> ELSE <<>>)
                \o (IF "map" \in fs THEN <<MsgWithFields(2)>> ELSE <<>>)
-               \o (IF "group" \in fs THEN <<MsgWithFields(1)>> ELSE <<>>)>>,
+               \o (IF "group" \in fs THEN <<MsgWithFields(1)>> ELSE <<>>)
+               \o (IF "mapfeatures" \in fs THEN <<MsgWithFields(2), MsgWithFields(2)>> ELSE <<>>)>>,
           <<4, IF "nested" \in fs THEN <<EnumWith(2, 0, 0)>> ELSE <<>> >>,
           <<5, Leaves(N("extrange" \in fs))>>,
           <<8, Leaves(N("oneof" \in fs) + N("p3opt" \in fs))>>,
